@@ -905,6 +905,32 @@ func isTotalSort(m *core.Module, call *ssa.Call, name string) bool {
 			return false
 		}
 		return lessComparesElements(fn)
+	case "slices.SortFunc", "slices.SortStableFunc":
+		// a comparison function that hands its two parameters (in either order) to cmp.Compare, or compares them with <
+		if len(call.Call.Args) != 2 {
+			return false
+		}
+		var fn *ssa.Function
+		switch f := call.Call.Args[1].(type) {
+		case *ssa.MakeClosure:
+			fn, _ = f.Fn.(*ssa.Function)
+		case *ssa.Function:
+			fn = f
+		}
+		if fn == nil || len(fn.Params) != 2 {
+			return false
+		}
+		rets := core.ReturnsOf(fn)
+		if len(rets) != 1 || len(rets[0].Results) != 1 {
+			return false
+		}
+		cc, ok := core.RetVal(rets[0], 0).(*ssa.Call)
+		if !ok || core.StaticCalleeName(&cc.Call) != "cmp.Compare" || len(cc.Call.Args) != 2 {
+			return false
+		}
+		a, b := cc.Call.Args[0], cc.Call.Args[1]
+		p0, p1 := ssa.Value(fn.Params[0]), ssa.Value(fn.Params[1])
+		return (a == p0 && b == p1) || (a == p1 && b == p0)
 	}
 	return false
 }
